@@ -50,6 +50,31 @@ def ge (a b : Int) : Bool := decide (a ≥ b)
 def eq {α : Type} [DecidableEq α] (a b : α) : Bool := decide (a = b)
 def ne {α : Type} [DecidableEq α] (a b : α) : Bool := decide (a ≠ b)
 
+/-- Go `string` values are Lean `String`s. Go orders strings byte-wise (on their UTF-8 bytes), Lean's
+    `String` order is the lexicographic order of the code points (`s < t ↔ s.toList < t.toList`);
+    UTF-8 preserves the code-point order, so the two agree on every Go string that is valid UTF-8
+    (in particular on the ASCII hex fingerprints of wasp/auth). Strings that are not valid UTF-8
+    have no counterpart here. -/
+def strLt (a b : String) : Bool := decide (a < b)
+def strLe (a b : String) : Bool := decide (a ≤ b)
+def strGt (a b : String) : Bool := decide (a > b)
+def strGe (a b : String) : Bool := decide (a ≥ b)
+/-- strings.Compare: `if a == b { return 0 }; if a < b { return -1 }; return +1` -/
+def strCompare (a b : String) : Int := if a = b then 0 else if a < b then -1 else 1
+
+/-- a `[]byte` value the translated code hands on without looking into it (an argument of an
+    external function, a `[]byte(s)` conversion): no index, slice, append or len on it -/
+abbrev Bytes := List UInt8
+/-- `[]byte(s)`: the UTF-8 bytes of `s` (character by character, so that the kernel can evaluate it) -/
+def bytesOfString (s : String) : Bytes := s.toList.flatMap String.utf8EncodeChar
+
+/-- an `error` value of the subset: `nil`, or a package-level `var ErrX = errors.New("…")`, which is
+    identified by its NAME (errors.New yields a distinct value at every call, whatever the message) -/
+inductive Error where
+  | nil
+  | sentinel (name : String)
+deriving Repr, DecidableEq, Inhabited
+
 /-- `a[i]` does not panic -/
 def inRange {α : Type} (l : List α) (i : Int) : Bool := decide (0 ≤ i) && decide (i < len l)
 /-- `a[i]` (guarded by `inRange`) -/
